@@ -14,6 +14,7 @@ from ..report import Ctx
 from ..tensor import Typer, MODEL_ARRAYS
 from ..util import norm, fn_body_nodes, walk_local, kwarg
 from .common import arg_permutation_rule, names_in, calls_named
+from .. import pat
 
 EXPLANATION = (
     "Evaluator: einsum axis roles of the cross-product chain (node roles N/N'), I - gamma*T_mu system, C_mu = pi R^T, and the "
@@ -29,17 +30,57 @@ RULES = ("TEN-1 einsum kinds incl. node roles; BEL-2 system matrix I - gamma*T_m
          "fresh w.r.t. controller writes; WIRE-1 reported value / controller wiring; VALID-1 strategies normalised by construction")
 
 
+def _defs(fi: FunctionInfo, name: Optional[str]) -> List[ast.Assign]:
+    """the assignments `name = ...` in fi's own body."""
+    if not name:
+        return []
+    return [n for n in fn_body_nodes(fi) if isinstance(n, ast.Assign) and len(n.targets) == 1 and isinstance(n.targets[0], ast.Name) and n.targets[0].id == name]
+
+
+class _ToRoles(ast.NodeTransformer):
+    def __init__(self, inv):
+        self.inv = inv
+
+    def visit_Name(self, node):
+        if node.id in self.inv:
+            return ast.copy_location(ast.Name(id="<" + self.inv[node.id] + ">", ctx=node.ctx), node)
+        return node
+
+    def visit_arg(self, node):
+        if node.arg in self.inv:
+            return ast.copy_location(ast.arg(arg="<" + self.inv[node.arg] + ">", annotation=None), node)
+        return node
+
+
+def _roles(node: Optional[ast.AST], env: Dict[str, object], width: int = 90) -> str:
+    """source of `node` with every bound local replaced by <its role>, so that reports do not depend on the spelling of locals."""
+    if node is None:
+        return "None"
+    inv = {v: k for k, v in env.items() if isinstance(v, str) and v.isidentifier()}
+    import copy
+    t = " ".join(ast.unparse(_ToRoles(inv).visit(copy.deepcopy(node))).split())
+    return t if len(t) <= width else t[:width - 3] + "..."
+
+
 def rule_evaluator(ctx: Ctx):
     P, X = ctx.P, ctx.X
     f = P.fn("stochastic_fsc_policy_evaluation_exact")
+    S = pat.Snips(f)
     typer = Typer(param_roles={"fsc_action": ("N", "A"), "fsc_state": ("N", "A", "O", "N2"), "fsc_initial_state": ("N",)})
     n = check_einsums_in_function(ctx, f, typer)
     # the cross-product einsum binds exactly the expected operands
     es = [c for c in fn_body_nodes(f) if isinstance(c, ast.Call) and ast.unparse(c.func) == "torch.einsum"]
     if es:
-        ops = [ast.unparse(a) for a in es[0].args[1:]]
-        ok = ops == ["fsc_action", "T", "O", "fsc_state"]
-        ctx.check(ok, "TEN-1", f, es[0], "chain einsum contracts (action strategy, T, O, node strategy)", str(ops), f"chain is built from {ops}")
+        # operands: the two strategies are parameters; T / O are the locals defined as the tensors of the POMDP's transition / observation matrix
+        tenv: Dict[str, object] = {}
+        for role, pattern in (("T", "T = torch.tensor(pomdp.transition_matrix, REST=ANY)"), ("O", "O = torch.tensor(pomdp.observation_matrix, REST=ANY)")):
+            hits = S.find(pattern)
+            if len(hits) == 1 and len(_defs(f, hits[0][1][role])) == 1:
+                tenv[role] = hits[0][1][role]
+        ok = len(tenv) == 2 and S.m("torch.einsum(ANY, fsc_action, T, O, fsc_state)", es[0], tenv) is not None
+        ops = [_roles(a, tenv) for a in es[0].args[1:]]
+        ctx.check(ok, "TEN-1", f, es[0], "chain einsum contracts (action strategy, T, O, node strategy)", str(ops),
+                  f"chain is built from {ops} (<T>/<O>: the tensor of pomdp.transition_matrix / pomdp.observation_matrix)")
         spec = es[0].args[0].value.replace(" ", "")
         ins, out = spec.split("->")
         subs = ins.split(",")
@@ -69,11 +110,15 @@ def rule_evaluator(ctx: Ctx):
     ok = A.op == "binop" and A.args[0] == "-"
     ctx.check(ok, "BEL-2", ifi, inode, "evaluator: system matrix is eye - gamma*T_mu", "", f"system matrix is `{show(A, 60)}`")
     # reward vector C_mu = fsc_action @ R.T
-    cm = [n2 for n2 in fn_body_nodes(f) if isinstance(n2, ast.Assign) and ast.unparse(n2.targets[0]) == "Cmu"]
-    ok = bool(cm) and ast.unparse(cm[0].value).replace(" ", "") == "fsc_action@R.T"
+    # Cmu is the vector the inverted system is applied to (the product is the reported value table); R is what Cmu weights by the strategy
+    cb = S.solve(["occupancy = E_sys.inverse()", "V = occupancy @ Cmu.view(ANY)", "Result(state_controller_value=V, REST=ANY)"])
+    cenv = dict(cb[0]) if cb else {}
+    cm = _defs(f, cenv.get("Cmu"))
+    ce = S.m("Cmu = fsc_action @ R.T", cm[0], cenv) if len(cm) == 1 else None
+    ok = ce is not None
     ctx.check(ok, "BEL-2", f, cm[0] if cm else f.node, "evaluator: C_mu[n, s] = sum_a pi(a|n) R(s, a)", "", "expected immediate reward is not pi . R^T")
-    rdef = [n2 for n2 in fn_body_nodes(f) if isinstance(n2, ast.Assign) and ast.unparse(n2.targets[0]) == "R"]
-    ok = bool(rdef) and "state_action_reward_matrix" in ast.unparse(rdef[0].value)
+    rdef = _defs(f, ce["R"]) if ce else []
+    ok = len(rdef) == 1 and "state_action_reward_matrix" in ast.unparse(rdef[0].value)
     ctx.check(ok, "BEL-2", f, rdef[0] if rdef else f.node, "evaluator: R is the state-action reward matrix", "", "reward source changed")
     # BEL-1: episode ends on entering an absorbing state -> mask must reach chain and reward
     vterm = None
@@ -94,8 +139,10 @@ def rule_evaluator(ctx: Ctx):
             ok = any(a in leaves for a in need.split("|"))
             ctx.check(ok, "BEL-1", f, f.node, f"evaluator: value depends on {need}", "", f"value table does not depend on {need}")
     # initial distributions
-    src = ast.unparse(f.node)
-    ok = "state_value = fsc_initial_state @ V" in src and "expected_value=state_value @ s0" in src and "s0 = torch.tensor(pomdp.initial_state_vec" in src
+    ib = S.solve(["Result(state_controller_value=V, expected_value=state_value @ s0, REST=ANY)",
+                  "state_value = fsc_initial_state @ V",
+                  "s0 = torch.tensor(pomdp.initial_state_vec, REST, REST=ANY)"])
+    ok = ib is not None and len(_defs(f, ib[0]["state_value"])) == 1 and len(_defs(f, ib[0]["s0"])) == 1
     ctx.check(ok, "INIT-1", f, f.node, "expected value = initial node distribution . V . initial state distribution", "", "expected value is not <fsc_initial_state, V, initial_state_vec>")
     asserts = [a for a in fn_body_nodes(f) if isinstance(a, ast.Assert) and "allclose" in ast.unparse(a.test) and "sum" in ast.unparse(a.test)]
     ctx.check(len(asserts) >= 2, "VALID-1", f, asserts[0] if asserts else f.node, "evaluator asserts both strategies are row-stochastic", "", "row-sum assertions on the strategies are gone")
@@ -126,19 +173,24 @@ def rule_execution(ctx: Ctx):
                   "the agent state is a *distribution over nodes* (action_dist is the mixture ag @ action_strategy and next_agentstate draws no sample), "
                   "so after observing its own action the node distribution must be re-weighted by action_strategy[:, a]; the update reads only "
                   "observation_strategy[:, a, o], so executed action/observation histories do not have the probabilities the controller defines")
-    # index provenance
+    # index provenance: the index locals are identified by their definitions (position of the given action / observation)
+    a_p, o_p = na.positional_params[2], na.positional_params[3]
+    Sn = pat.Snips(na)
+    ib = Sn.solve([f"oi = self.pomdp.observation_index[{o_p}]", f"ai = self.pomdp.action_list.index({a_p})"])
+    ienv = ib[0] if ib else {}
+    ok = ib is not None and ienv["ai"] != ienv["oi"] and len(_defs(na, ienv["ai"])) == 1 and len(_defs(na, ienv["oi"])) == 1
+    index_role = {ienv["ai"]: ("A", "action index"), ienv["oi"]: ("O", "observation index")} if ok else {}
     for sub in ast.walk(na.node):
         if isinstance(sub, ast.Subscript) and isinstance(sub.value, ast.Attribute) and sub.value.attr == "observation_strategy":
             items = list(sub.slice.elts) if isinstance(sub.slice, ast.Tuple) else [sub.slice]
             roles = ("N", "A", "O", "N2")
             for k, it in enumerate(items):
-                if isinstance(it, ast.Name) and it.id in ("ai", "oi"):
-                    want = {"ai": "A", "oi": "O"}[it.id]
-                    ctx.check(roles[k] == want, "IDX-1", na, sub, f"observation_strategy axis {k} ({roles[k]}) indexed by `{it.id}`", "",
-                              f"`{it.id}` indexes axis {k} of the node-transition strategy, whose role is {roles[k]}")
-    src = ast.unparse(na.node)
-    ok = "oi = self.pomdp.observation_index[o]" in src and "ai = self.pomdp.action_list.index(a)" in src
-    ctx.check(ok, "IDX-1", na, na.node, "ai / oi are the positions of the given action / observation", "", "index variables are not derived from the given action and observation")
+                if isinstance(it, ast.Name) and it.id in index_role:
+                    want, what = index_role[it.id]
+                    ctx.check(roles[k] == want, "IDX-1", na, sub, f"observation_strategy axis {k} ({roles[k]}) indexed by the {what}", "",
+                              f"the {what} indexes axis {k} of the node-transition strategy, whose role is {roles[k]}")
+    ctx.check(ok, "IDX-1", na, na.node, "action / observation indices are the positions of the given action / observation", "",
+              "index variables are not derived from the given action and observation")
     ia = C.methods["initial_agentstate"]
     ctx.check("return self.initial_state_dist" in ast.unparse(ia.node), "EXEC-1", ia, ia.node, "initial agent state is the initial node distribution", "", "initial agent state changed")
     init = C.methods["__init__"]
@@ -149,6 +201,14 @@ def rule_execution(ctx: Ctx):
 def rule_bpi(ctx: Ctx):
     P = ctx.P
     f = P.method("FSCBoundedPolicyIteration", "train_on")
+    pomdp = f.positional_params[1]
+    S = pat.Snips(f, literals=set(f.nested))          # names of nested defs are fixed points of the function, like its parameters
+    # roles: the two strategy arrays (sampled initially, then improved) and the value table of the controller they form
+    rb = S.solve(["fsc_action = sample_distribution(REST)", "fsc_state = sample_distribution(REST)", "V = value(fsc_action, fsc_state)"])
+    if rb is None:
+        raise AnalysisError("FSCBoundedPolicyIteration.train_on: controller strategies / value table not recognised")
+    env = {k: rb[0][k] for k in ("fsc_action", "fsc_state", "V")}
+    A_, S_, V_ = env["fsc_action"], env["fsc_state"], env["V"]
     # CFG-3: after every controller write the value table is recomputed before it is read again
     writes: List[ast.stmt] = []
     for n in fn_body_nodes(f):
@@ -156,11 +216,12 @@ def rule_bpi(ctx: Ctx):
             ip = kwarg(n.value, "inplace")
             if ip is not None and isinstance(ip, ast.Constant) and ip.value is True:
                 writes.append(n)
-        if isinstance(n, ast.Assign) and isinstance(n.targets[0], ast.Tuple) and [ast.unparse(e) for e in n.targets[0].elts] == ["fsc_action", "fsc_state"] \
+        if isinstance(n, ast.Assign) and isinstance(n.targets[0], ast.Tuple) and [ast.unparse(e) for e in n.targets[0].elts] == [A_, S_] \
                 and "add_to_fsc" in ast.unparse(n.value):
             writes.append(n)
     if not writes:
         ctx.violation("CFG-3", f, f.node, "controller writes in the improvement loop", "no controller write recognised")
+    seen: Dict[str, int] = {}
     for w in writes:
         block = None
         for n in ast.walk(f.node):
@@ -171,70 +232,111 @@ def rule_bpi(ctx: Ctx):
         fresh = False
         if block is not None:
             for st in block[block.index(w) + 1:]:
-                if isinstance(st, ast.Assign) and ast.unparse(st.targets[0]) == "V" and ast.unparse(st.value) == "value(fsc_action, fsc_state)":
+                if S.m("V = value(fsc_action, fsc_state)", st, env) is not None:
                     fresh = True
                     break
-                if "V" in names_in(st):
+                if V_ in names_in(st):
                     break
-        ctx.check(fresh, "CFG-3", f, w, f"value table recomputed after `{norm(w, 50)}`", "",
-                  f"after the controller write `{norm(w, 50)}` the value table V is read (or the block ends) before `V = value(fsc_action, fsc_state)`: "
-                  f"the reported value would not be the evaluation of the returned controller")
+        kind = "in-place add_to_fsc write" if isinstance(w, ast.Expr) else "rebinding add_to_fsc write (controller grows)"
+        seen[kind] = seen.get(kind, 0) + 1
+        ctx.check(fresh, "CFG-3", f, w, f"value table recomputed after {kind} #{seen[kind]}", "",
+                  f"after the controller write `{_roles(w, env, 70)}` the value table is read (or the block ends) before it is recomputed as "
+                  f"value(<fsc_action>, <fsc_state>): the reported value would not be the evaluation of the returned controller")
     # value() evaluates the arrays it is given with the exact evaluator on this pomdp
     val = f.nested.get("value")
     if val is not None:
-        src = ast.unparse(val.node)
-        ok = "stochastic_fsc_policy_evaluation_exact(pomdp, torch.tensor(fsc_action), torch.tensor(fsc_state))" in src and ".state_controller_value" in src
+        vp = val.positional_params
+        ok = len(vp) == 2 and pat.Snips(val).has(
+            f"stochastic_fsc_policy_evaluation_exact({pomdp}, torch.tensor(arg0), torch.tensor(arg1)).state_controller_value", {"arg0": vp[0], "arg1": vp[1]})
         ctx.check(ok, "WIRE-1", val, val.node, "value(...) is the exact evaluation of its own arguments on this POMDP", "", "value() does not evaluate the controller it is given")
+    # initial node: best node for the initial state distribution
+    icv, e1 = S.first(f"initial_controller_values = V @ {pomdp}.initial_state_vec", env)
+    ok = icv is not None and len(_defs(f, e1["initial_controller_values"])) == 1
+    ctx.check(ok, "WIRE-1", f, icv if icv is not None else f.node, "initial controller values = V @ initial_state_vec", "", "initial controller values are not V @ initial_state_vec")
+    if ok:
+        env["initial_controller_values"] = e1["initial_controller_values"]
+    ini, e2 = S.first("fsc_initial_state[np.argmax(initial_controller_values)] = 1", env)
+    ctx.check(ini is not None and ok, "WIRE-1", f, ini if ini is not None else f.node, "initial node = best node for the initial state distribution", "", "initial node selection changed")
+    if ini is not None and ok:
+        env["fsc_initial_state"] = e2["fsc_initial_state"]
+    bound = "fsc_initial_state" in env
     # result wiring
     rets = [n for n in fn_body_nodes(f) if isinstance(n, ast.Return) and isinstance(n.value, ast.Call)]
     if rets:
         r = rets[0].value
         pol = kwarg(r, "policy")
-        ok = pol is not None and ast.unparse(pol) == "StochasticFiniteStateController(pomdp, fsc_action, fsc_state, fsc_initial_state)"
-        ctx.check(ok, "WIRE-1", f, rets[0], "returned controller is built from the improved strategies", "", f"returned policy is `{norm(pol) if pol is not None else None}`")
+        ok = bound and pol is not None and S.m(f"StochasticFiniteStateController({pomdp}, fsc_action, fsc_state, fsc_initial_state)", pol, env) is not None
+        ctx.check(ok, "WIRE-1", f, rets[0], "returned controller is built from the improved strategies", "", f"returned policy is `{_roles(pol, env)}`")
         v = kwarg(r, "value")
-        ok = v is not None and ast.unparse(v).replace(" ", "") == "fsc_initial_state@initial_controller_values"
-        ctx.check(ok, "WIRE-1", f, rets[0], "reported value = initial node distribution . (V . initial_state_vec)", "", f"reported value is `{norm(v) if v is not None else None}`")
+        ok = bound and v is not None and S.m("fsc_initial_state @ initial_controller_values", v, env) is not None
+        ctx.check(ok, "WIRE-1", f, rets[0], "reported value = initial node distribution . (V . initial_state_vec)", "", f"reported value is `{_roles(v, env)}`")
         scv = kwarg(r, "state_controller_value")
-        ctx.check(scv is not None and ast.unparse(scv) == "V", "WIRE-1", f, rets[0], "reported state_controller_value is V", "", "reported value table is not V")
-    src = ast.unparse(f.node)
-    ctx.check("initial_controller_values = V @ pomdp.initial_state_vec" in src, "WIRE-1", f, f.node, "initial controller values = V @ initial_state_vec", "", "initial controller values are not V @ initial_state_vec")
-    ctx.check("fsc_initial_state[np.argmax(initial_controller_values)] = 1" in src, "WIRE-1", f, f.node, "initial node = best node for the initial state distribution", "", "initial node selection changed")
-    # monotonicity assertion precedes the in-place update
-    ctx.check("assert_value_improvement(V, lambda: r.add_to_fsc(fsc_action, fsc_state, inplace=False))" in src, "CFG-3", f, f.node,
+        ctx.check(isinstance(scv, ast.Name) and scv.id == V_, "WIRE-1", f, rets[0], "reported state_controller_value is V", "", "reported value table is not V")
+    # monotonicity assertion precedes the in-place update (of the same improvement result)
+    mb = S.solve(["assert_value_improvement(V, lambda: r.add_to_fsc(fsc_action, fsc_state, inplace=False))", "r.add_to_fsc(fsc_action, fsc_state, inplace=True)"], env)
+    ok = mb is not None and (mb[1][0].lineno, mb[1][0].col_offset) < (mb[1][1].lineno, mb[1][1].col_offset)
+    ctx.check(ok, "CFG-3", f, mb[1][0] if mb else f.node,
               "value improvement is asserted on a copy before the in-place update", "", "the monotonic-improvement assertion is gone")
     sd = f.nested.get("sample_distribution")
     if sd is not None:
-        ok = "d / d.sum(axis=-1, keepdims=True)" in ast.unparse(sd.node)
+        ok = pat.Snips(sd).has("return d / d.sum(axis=-1, keepdims=True)")
         ctx.check(ok, "VALID-1", sd, sd.node, "initial strategies are normalised over the last axis", "", "sampled strategies are not normalised")
     imp = P.fn("improve_node_matrix_constraint")
-    src = ast.unparse(imp.node)
-    ok = "observation_strategy = canz / c_a[:, None, None]" in src and "assert np.allclose(observation_strategy.sum(-1), 1)" in src
+    node_p = imp.positional_params[2]
+    Si = pat.Snips(imp, literals=set(imp.nested))
+    # roles: canz = the reshaped LP solution, c_a = its marginal over next nodes at one observation, the two improved strategies
+    nb = Si.solve(["canz = np_no_copy_reshape(result.solution[ANY], ANY)",
+                   "c_a = canz[:, ANY, :].sum(axis=-1)",
+                   "observation_strategy = canz / c_a[:, None, None]",
+                   "assert np.allclose(observation_strategy.sum(-1), 1)"])
+    ok = nb is not None and all(len(_defs(imp, nb[0][k])) == 1 for k in ("canz", "c_a"))
     ctx.check(ok, "VALID-1", imp, imp.node, "improved node strategy: c_{a,n_z}/c_a with row-sum assertion", "", "node strategy normalisation / assertion changed")
-    ok = "fsc_action[node] = action_strategy" in src and "fsc_state[node] = observation_strategy" in src
+    atf = imp.nested.get("add_to_fsc")
+    ok = False
+    if nb is not None and atf is not None and len(atf.positional_params) == 2:
+        ienv = {k: nb[0][k] for k in ("c_a", "observation_strategy")}
+        ab = Si.solve(["action_strategy = c_a"], ienv)
+        if ab is not None:
+            ienv = dict(ab[0], arg0=atf.positional_params[0], arg1=atf.positional_params[1])
+            Sa = pat.Snips(atf)
+            ok = Sa.has(f"arg0[{node_p}] = action_strategy", ienv) and Sa.has(f"arg1[{node_p}] = observation_strategy", ienv)
     ctx.check(ok, "VALID-1", imp, imp.node, "add_to_fsc writes the improved node's own rows", "", "improved strategies are written to the wrong rows")
 
 
 def rule_ga(ctx: Ctx):
     P = ctx.P
     f = P.method("FSCGradientAscent", "train_on")
+    S = pat.Snips(f, literals=set(f.nested))
     val = f.nested.get("value")
     rets = [n for n in fn_body_nodes(f) if isinstance(n, ast.Return) and isinstance(n.value, ast.Call)]
     if val is None or not rets:
         raise AnalysisError("FSCGradientAscent.train_on: value closure / result vanished")
     c = [x for x in ast.walk(val.node) if isinstance(x, ast.Call) and "stochastic_fsc_policy_evaluation_exact" in ast.unparse(x.func)]
-    ev_args = [ast.unparse(a) for a in c[0].args[1:]] + [ast.unparse(kwarg(c[0], "fsc_initial_state"))] if c else []
+    ev_nodes = (list(c[0].args[1:]) + [kwarg(c[0], "fsc_initial_state")]) if c else []
+    ev_args = [ast.unparse(a) if a is not None else "None" for a in ev_nodes]
     pol = kwarg(rets[0].value, "policy")
-    pol_args = [ast.unparse(a) for a in pol.args[1:]] if isinstance(pol, ast.Call) else []
-    ctx.check(bool(ev_args) and ev_args == pol_args, "WIRE-1", f, rets[0], "returned controller and evaluated controller are the same softmax of the same logits", str(pol_args),
-              f"the evaluated controller {ev_args} differs from the returned one {pol_args}")
+    pol_nodes = list(pol.args[1:]) if isinstance(pol, ast.Call) else []
+    pol_args = [ast.unparse(a) for a in pol_nodes]
+    # the logit locals, named by their position in the returned controller
+    lenv: Dict[str, object] = {}
+    for role, a in zip(("action_logit", "node_logit", "initial_node_logit"), pol_nodes):
+        b = a.func.value if isinstance(a, ast.Call) and isinstance(a.func, ast.Attribute) else a
+        if isinstance(b, ast.Name):
+            lenv[role] = b.id
+    shown = [_roles(a, lenv) for a in pol_nodes]
+    ctx.check(bool(ev_args) and ev_args == pol_args, "WIRE-1", f, rets[0], "returned controller and evaluated controller are the same softmax of the same logits", str(shown),
+              f"the evaluated controller {[_roles(a, lenv) for a in ev_nodes]} differs from the returned one {shown}")
     ctx.check(all(a.endswith(".softmax(-1)") for a in pol_args) and len(pol_args) == 3, "VALID-1", f, rets[0], "returned strategies are softmax over the last axis", "", "returned strategies are not softmax(-1) of the logits")
     v = kwarg(rets[0].value, "value")
     ok = v is not None and ast.unparse(v) == "value()"
     ctx.check(ok, "CFG-3", f, rets[0], "reported value is evaluated after the last optimiser step", "", "reported value is a stale evaluation from inside the optimisation loop")
-    ctx.check(bool(c) and ast.unparse(c[0].args[0]) == "pomdp", "WIRE-1", val, c[0] if c else val.node, "evaluation runs on the given POMDP", "", "evaluation runs on a different problem")
-    src = ast.unparse(f.node)
-    ctx.check("loss = -result.expected_value" in src, "WIRE-1", f, f.node, "ascent maximises the expected value at the initial distributions", "", "objective changed")
+    ctx.check(bool(c) and ast.unparse(c[0].args[0]) == f.positional_params[1], "WIRE-1", val, c[0] if c else val.node, "evaluation runs on the given POMDP", "", "evaluation runs on a different problem")
+    # objective: the loss that is back-propagated is minus the expected value of the current evaluation
+    ob = None
+    for lp in [n for n in fn_body_nodes(f) if isinstance(n, (ast.For, ast.While))]:
+        ob = ob or S.solve(["result = value()", "loss = -result.expected_value", "loss.backward()"], within=lp)
+    ok = ob is not None and len(_defs(f, ob[0]["result"])) == 1 and len(_defs(f, ob[0]["loss"])) == 1
+    ctx.check(ok, "WIRE-1", f, ob[1][1] if ob else f.node, "ascent maximises the expected value at the initial distributions", "", "objective changed")
 
 
 def run(ctx: Ctx):
